@@ -95,7 +95,7 @@ void harness(void) {
 	/* decode o encode = id (packer level) */
 	CHECK(bits / 8 == NDATA, "C17.H2 the symbols of encode(d) carry exactly the bytes of d");
 	for (unsigned i = 0; i < NDATA; i++) CHECK(back[i] == d[i], "C17.H2 unpacking the encoder's symbols returns d");
-	if (d[0] == 0xff && d[NDATA - 1] == 0x01) WITNESS_POINT("data encoded and unpacked");
+	if ((d[0] & 0xf0) == 0xa0 && (d[NDATA - 1] & 0x0f) == 0x01) WITNESS_POINT("data encoded and unpacked");
 	KSI_free(enc); verif_buf_free(d, NDATA);
 }
 #endif
